@@ -138,6 +138,26 @@ func heapRun(c *fw.Ctx, ops []hop, opt heapOpts) (div *heapDiv, st heapStats) {
 	}()
 
 	dir := 0
+	// the comparison function notes its arguments: it is only defined on
+	// elements that were handed to the queue at some point (never on a zero
+	// value or anything else the caller did not supply)
+	issued := map[int]Elem{}
+	var stray *Elem
+	heapCmp := func(dir int) func(a, b Elem) int {
+		f := heapCmp(dir)
+		return func(a, b Elem) int {
+			if stray == nil {
+				if issued[a.Tag] != a {
+					w := a
+					stray = &w
+				} else if issued[b.Tag] != b {
+					w := b
+					stray = &w
+				}
+			}
+			return f(a, b)
+		}
+	}
 	cmp := heapCmp(dir)
 	pos := map[int]int{}      // tag -> last reported position
 	tracked := map[int]bool{} // tags that entered through Add or Set
@@ -311,6 +331,7 @@ func heapRun(c *fw.Ctx, ops []hop, opt heapOpts) (div *heapDiv, st heapStats) {
 			tag++
 			e := Elem{Key: o.Key, Tag: tag}
 			ref[tag] = e
+			issued[tag] = e
 			tracked[tag] = true
 			order = append(order, tag)
 			c.Call("heapq.Add(%v) len=%d", e, len(ref)-1)
@@ -391,6 +412,7 @@ func heapRun(c *fw.Ctx, ops []hop, opt heapOpts) (div *heapDiv, st heapStats) {
 				tag++
 				vs[i] = Elem{Key: k, Tag: tag}
 				ref[tag] = vs[i]
+				issued[tag] = vs[i]
 				tracked[tag] = true
 				order = append(order, tag)
 			}
@@ -432,6 +454,7 @@ func heapRun(c *fw.Ctx, ops []hop, opt heapOpts) (div *heapDiv, st heapStats) {
 				tag++
 				data[i] = Elem{Key: k, Tag: tag}
 				ref[tag] = data[i]
+				issued[tag] = data[i]
 				order = append(order, tag) // not tracked: did not enter through Add or Set
 			}
 			c.Call("heapq.NewWithData(%d values)", len(data))
@@ -447,6 +470,9 @@ func heapRun(c *fw.Ctx, ops []hop, opt heapOpts) (div *heapDiv, st heapStats) {
 		}
 		if len(ref) > st.maxLen {
 			st.maxLen = len(ref)
+		}
+		if stray != nil {
+			return fail("the comparison function was called with %v, which was never handed to the queue", *stray), st
 		}
 		if d := check(); d != nil {
 			return d, st
